@@ -5,7 +5,10 @@ SPEC = Spec(
     pid="C20",
     lean_modules=["OtelVerif.Props.C20"],
     # shape fact: every close(<x>.shutdownChan) in otelcol/ is under a deferred recover() or sync.Once (C20_close_is_recovered)
-    translators=[go_translator("shutdownshape", "OtelVerif/Gen/ShutdownShape.lean")],
+    translators=[go_translator("shutdownshape", "OtelVerif/Gen/ShutdownShape.lean"),
+                 # state constants, state writers, setCollectorState sites, guard truth table, call order of the lifecycle
+                 # functions, signal registrations, select branches (C20_*_match_source, C20_every_transition_in_fsm)
+                 go_translator("collectorfsm", "OtelVerif/Gen/CollectorFsm.lean")],
     harnesses=[
         # deterministic, gated histories: exact differential (D) against the LTS + Lean trace monitor (M) + Go oracles
         Harness(name="runloop", module="otelcol", pkg="otelcol",
@@ -18,7 +21,7 @@ SPEC = Spec(
         # tight concurrent-Shutdown stress: min(4, GOMAXPROCS) callers through a spin barrier (monitored only)
         Harness(name="stress", module="otelcol", pkg="otelcol",
                 files={"zz_verif_c20_runloop_test.go": "c20/runloop_test.go", "zz_verif_c20_concurrent_test.go": "c20/concurrent_test.go"},
-                test="TestVerifC20ConcurrentShutdown", driver="drv_c20", n={"quick": 400, "thorough": 4000}, timeout_s=1500),
+                test="TestVerifC20ConcurrentShutdown", driver="drv_c20", n={"quick": 400, "thorough": 3000}, timeout_s=1500),
         # provider goroutines log through the ProviderSettings logger while start-up and reloads swap its core (monitored only)
         Harness(name="provlog", module="otelcol", pkg="otelcol",
                 files={"zz_verif_c20_runloop_test.go": "c20/runloop_test.go", "zz_verif_c20_providerlog_test.go": "c20/providerlog_test.go"},
@@ -27,6 +30,11 @@ SPEC = Spec(
         Harness(name="watchburst", module="otelcol", pkg="otelcol",
                 files={"zz_verif_c20_runloop_test.go": "c20/runloop_test.go", "zz_verif_c20_watchburst_test.go": "c20/watchburst_test.go"},
                 test="TestVerifC20WatchBursts", driver="drv_c20", n={"quick": 150, "thorough": 1200}, timeout_s=1500),
+        # gated histories with signals delivered by the OPERATING SYSTEM (kill(getpid())): exact differential against the signal
+        # layer fireS (registrations of Run, DisableGracefulShutdown, FIFO channel of capacity 3, signal.Stop) + Go oracles
+        Harness(name="signals", module="otelcol", pkg="otelcol",
+                files={"zz_verif_c20_runloop_test.go": "c20/runloop_test.go", "zz_verif_c20_signals_test.go": "c20/signals_test.go"},
+                test="TestVerifC20Signals", driver="drv_c20", n={"quick": 600, "thorough": 4000}, timeout_s=1500),
         # native scheduling, no gates: monitored only (M)
         Harness(name="race", module="otelcol", pkg="otelcol",
                 files={"zz_verif_c20_runloop_test.go": "c20/runloop_test.go"},
@@ -71,7 +79,26 @@ SPEC = Spec(
          "Shutdown() returns. In the gated/exhaustive harnesses watch notifications are also sent by provider goroutines, up to 3 "
          "outstanding (corpus cases 4, 5). A Run goroutine "
          "that stops making progress in a gated history while a FatalError report has not come back is "
-         "C20/runloop/run-wedged-while-fatal-error-report-pending.",
+         "C20/runloop/run-wedged-while-fatal-error-report-pending. "
+         "Second session: failing set-up outcomes now also include a configuration that does not pass xconfmap.Validate (pipeline "
+         "references an exporter that is not configured) and one that does not unmarshal (unknown section) besides a failing "
+         "Retrieve / component create. Every harness: the sampled state word (one `tr st` per change) must be a path of the "
+         "lifecycle FSM (Lean prop fsm, C20/state/transition-outside-fsm, sound by C20_fsm_check_sound). signals: the gated "
+         "random walk of runloop with SIGHUP / SIGTERM / SIGINT delivered by the OPERATING SYSTEM (kill(getpid(), sig); the test "
+         "keeps its own registration so that the process survives; a SIGUSR1 marker through os/signal's single dispatch goroutine "
+         "tells when delivery is complete) before Run, during the initial set-up, at every gate, in the select, beyond the channel "
+         "capacity and after Run returned, DisableGracefulShutdown on in half of the cases, Collector.DryRun (valid / invalid "
+         "configuration) before Run in a quarter; the model is the signal layer fireS (registrations read off the regenerated "
+         "signal.Notify calls, FIFO channel of the regenerated capacity, signal.Stop) around the same LTS; the observation is the "
+         "core observation plus len(signalsChannel), diffed exactly after every label; Go oracles: a received SIGINT/SIGTERM must "
+         "lead to the provider-shutdown gate (C20/signal/termination-signal-did-not-stop), a received SIGHUP to the retiring "
+         "service's shutdown gate (C20/signal/sighup-stopped-the-collector), a registered signal that entered the channel must be "
+         "acted on (C20/signal/registered-signal-not-acted-on), DryRun must leave state Starting / nothing started / channel "
+         "untouched (C20/dryrun/changed-collector-state); cases 0-5 are corpus scripts; non-trivial = a signal entered the channel "
+         "and another one was dropped or not registered. After the random cases the same test enumerates EVERY script over {go, fail, "
+         "OS SIGHUP, OS SIGTERM, OS SIGINT, Shutdown()} of length <= 3 (thorough 5) from the anchor Running-idle-in-the-select, for "
+         "DisableGracefulShutdown off and on, breadth first, only applicable tokens (case id = 1000000 + dg*400000000 + script in "
+         "base-7 digits; replays alone).",
     trusted_base=[
         "Lean 4.33.0 kernel; axioms per theorem listed under axioms_per_theorem (subset of propext, Classical.choice, Quot.sound)",
         "hand-written LTS of otelcol/collector.go (Run, setupConfigurationComponents, reloadConfiguration, shutdown, Shutdown) in "
@@ -93,20 +120,36 @@ SPEC = Spec(
         "records whether a deferred recover() precedes it in the same function or it sits inside <sync.Once field>.Do; "
         "that recover()/sync.Once make a double close harmless is Go semantics (trusted)",
         "the harness's reading of which select branch was taken comes from the collector's own log messages (zap hook)",
-        "OS signal delivery (signal.Notify) is replaced by sends on Collector.signalsChannel; real config providers by an instrumented one",
+        "in the runloop/exhaustive/race harnesses OS signal delivery (signal.Notify) is replaced by sends on Collector.signalsChannel; "
+        "the signals harness delivers real signals (kill to the own process) through os/signal and the collector's own "
+        "registrations, tied exactly to the signal layer fireS (Model/C20Sig.lean). Trusted there: os/signal dispatches signals "
+        "one at a time from one goroutine with non-blocking sends (the SIGUSR1 marker relies on it); real config providers are "
+        "replaced by an instrumented one",
+        "translator translators/cmd/collectorfsm (go/ast + go/printer for condition texts, stdlib only): State constants, state "
+        "writers, setCollectorState sites, truth table of the Shutdown() guard, call order of the lifecycle functions, signal.Notify "
+        "registrations / deferred signal.Stop, channel capacities (NewCollector, confmap.NewResolver), shape of Run's select branches, "
+        "shape of the send in Resolver.onChange and Host.NotifyComponentStatusChange; exit 2 on any shape it does not know. The Lean "
+        "side computes the same facts FROM THE MODEL (stepRun/pickEv on probe states) and proves them equal (C20_*_match_source)",
+        "the mapping program point -> Go function (Pc.func) and event -> call name (TEv.callName) in Lemmas/C20Fsm.lean is hand-written "
+        "(13 + 5 lines); everything else in the source tie is computed",
     ],
     assumptions=[
-        "fairness for the liveness statements (C20_stop_returns, C20_shutdown_honoured): the Run goroutine and a goroutine inside "
-        "Shutdown() are eventually scheduled; the history of external events is finite",
+        "fairness is now an explicit hypothesis of the liveness theorems (RunMaximal: the history is not cut short while the Run "
+        "goroutine can move; finite history = a finite label list): C20_liveness_under_fairness, "
+        "C20_stop_request_under_fairness_returns, C20_run_goroutine_work_is_bounded (ranking function mu), "
+        "C20_fair_completion_exists. Still assumed, not proved: that the Go scheduler and select ARE fair in that sense, and that a "
+        "goroutine inside Shutdown() eventually executes its close",
         "provider notifications go through the REAL confmap.Resolver (the test provider's goroutines call the WatcherFunc handed to "
         "Retrieve): up to 3 outstanding in the gated/exhaustive harnesses, bursts of 1-3 in the watchburst harness; the model keeps every "
         "outstanding notification (lossless, C20_watch_error_never_lost). A provider never notifies once the run is committed to the "
         "provider's Shutdown; a sender still blocked when Shutdown closes the channel panics in the provider's goroutine (counted, "
         "recovered by the harness) - excluded from the statement by the provider contract",
         "Run is called at most once per Collector (documented)",
-        "channels are idealised as pending counters: a `post hup/term` is a signal that ENTERED signalsChannel (capacity 3; a signal "
-        "arriving while three are pending is dropped by os/signal before it reaches the collector — OS signal delivery, outside the "
-        "statement's reach; the harness offers such signals and checks nothing happens); watcher channel capacity 1 with a BLOCKING send: a further "
+        "channels: in the core LTS a `post hup/term` is a signal that ENTERED signalsChannel; the step before it — registration "
+        "window (after the initial set-up until Run returns), DisableGracefulShutdown, capacity 3 with non-blocking hand-over, FIFO "
+        "order — is modelled by the signal layer (C20_sig_*) and exercised with real signals. A signal that arrives before Running "
+        "is first reached, after Run returned, or behind three pending ones never reaches the collector: what the PROCESS then does "
+        "(default disposition) is the embedding program's business, outside the statement; watcher channel capacity 1 with a BLOCKING send: a further "
         "notification waits in the provider's goroutine (outstanding in the model, exercised for real) and panics there if the "
         "provider is shut down meanwhile — excluded by the provider contract; asyncErrorChannel unbuffered: direct senders and component reports are "
         "pending senders (repaired host: the report's hand-over goroutine; it never holds up the component or the status reporter)",
